@@ -39,10 +39,10 @@ JOBS = [
     dict(job=('specs.files', 'size_limit', {}), props=['C20']),
     dict(job=('specs.files', 'holder_to_file', {}), props=['C20']),
     # ---- asynchronous cassette (monitor invariant)
-    dict(job=('specs.async_cas', 'producer', {}), props=['C12']),
-    dict(job=('specs.async_cas', 'flusher', {}), props=['C12']),
-    dict(job=('specs.async_cas', 'recording_loop', {}), props=['C12']),
-    dict(job=('specs.async_cas', 'close', {}), props=['C12']),
+    dict(job=('specs.async_cas', 'producer', {}), props=['C12', 'C05', 'C01']),
+    dict(job=('specs.async_cas', 'flusher', {}), props=['C12', 'C05', 'C01']),
+    dict(job=('specs.async_cas', 'recording_loop', {}), props=['C12', 'C05', 'C01']),
+    dict(job=('specs.async_cas', 'close', {}), props=['C12', 'C05', 'C01']),
     dict(job=('specs.async_cas', 'async_recording_ops', {}), props=['C12']),
     dict(job=('specs.async_cas', 'cassette_ops', {}), props=['C12']),
     # ---- helper functions of the recorder proved against the contracts the wrapper units assume
@@ -62,8 +62,8 @@ JOBS = [
     dict(job=('specs.cassettes', 'in_memory_create', {}), props=['C07', 'C10', 'C04']),
     dict(job=('specs.cassettes', 'in_memory_iter', {}), props=['C10', 'C19']),
     dict(job=('specs.cassettes', 'category_units', {}), props=['C10', 'C19']),
-    dict(job=('specs.cassettes', 'pickle_copy_unit', {}), props=['C11', 'C01', 'C07', 'C04']),
-    dict(job=('specs.cassettes', 'file_roundtrip', {}), props=['C07', 'C11', 'C05', 'C01']),
+    dict(job=('specs.cassettes', 'pickle_copy_unit', {}), props=['C11', 'C01', 'C07', 'C04', 'C03']),
+    dict(job=('specs.cassettes', 'file_roundtrip', {}), props=['C07', 'C11', 'C05', 'C01', 'C06']),
     dict(job=('specs.cassettes', 'file_iter', {}), props=['C10', 'C19']),
     dict(job=('specs.cassettes', 'file_create', {}), props=['C07', 'C10', 'C04']),
     dict(job=('specs.cassettes', 'base_cassette_misc', {}), props=['C05', 'C04', 'C17', 'C11', 'C07', 'C15']),
@@ -170,6 +170,10 @@ BOUNDED = {'specs.studio.grouping': 'replay/bounded/c19_grouping.py',
            'specs.equalizer.': 'replay/bounded/c08_equalizer.py', 'specs.tr_units.w_in_playback': 'replay/bounded/c08_equalizer.py',
            'specs.tr_units.w_out{\'mode\': \'playback\'': 'replay/bounded/c08_equalizer.py', 'specs.tr_units.play': 'replay/bounded/c08_equalizer.py',
            'specs.tr_units.w_op_playback': 'replay/bounded/c08_equalizer.py',
+           # recording side: what a run stores after other runs = what it stores on a fresh recorder; finalised once; flags follow the outcome
+           'specs.tr_units.w_op_recording': 'replay/bounded/c09_recording_sequences.py', 'specs.tr_units.w_in_recording': 'replay/bounded/c09_recording_sequences.py',
+           'specs.tr_units.w_out{\'mode\': \'recording\'': 'replay/bounded/c09_recording_sequences.py', 'specs.tr_helpers.post_metadata': 'replay/bounded/c09_recording_sequences.py',
+           'specs.tr_small.': 'replay/bounded/c09_recording_sequences.py', 'specs.c01.tr_init': 'replay/bounded/c09_recording_sequences.py',
            'specs.matcher.match_value': 'replay/bounded/c14_matcher.py',
            'specs.cassettes.': 'replay/bounded/c07_cassettes.py', 'specs.s3.s3_save_get': 'replay/bounded/c07_cassettes.py', 'specs.s3.s3_close': 'replay/bounded/c07_cassettes.py'}
 
